@@ -70,6 +70,8 @@ def ranking_case(rnd, rule, maxn=6):
         L = rnd.randint(1, n + 2)
         vec = sorted([rnd.choice([0, 1, 2, 3, 5, F(1, 2), F(7, 3)]) for _ in range(L)], reverse=True)
         cfg["score_vector"] = [canon.fs(F(v)) for v in vec]
+        # any sequence of numbers is a score vector: list / tuple, Fractions / floats (floats only where they are exact)
+        cfg["sv_type"] = ["list", "tuple", "float"][int(canon.jhash(cfg["score_vector"])[:2], 16) % 3]
     return {"cfg": cfg, "profile": spec, "tag": tag}
 
 
